@@ -547,6 +547,13 @@ impl World {
             if held {
                 continue;
             }
+            // suppliers declared different last_seq for this version: whether (and when) the node regards it as
+            // completely buffered depends on which declaration it kept - no demand (see DESIGN.md §6.2)
+            if self.models[nd].get(&origin).is_some_and(|m| m.l_conflict(v) || m.ambiguous(v)) {
+                // still pick up a trigger if the node sent one (the apply step runs what was triggered)
+                let _ = self.nodes[nd].wait_trigger(actor, v, Duration::from_millis(20)).await;
+                continue;
+            }
             let ok = self.nodes[nd].wait_trigger(actor, v, Duration::from_secs(4)).await;
             ensure!(ok, "covered-version-is-scheduled-for-apply", "node {nd}: v{v} of node {origin} is completely buffered but no apply was scheduled within 10s");
         }
@@ -884,7 +891,11 @@ impl World {
                 let live = self.live_rows(server, origin, v).await?;
                 if live.is_empty() {
                     classes.insert("held-no-live-changes");
-                    ensure!(got.is_empty(), "cleared-version-sends-no-changes", "v{v} has no live change on the server but it sent {got:?}");
+                    if !got.is_empty() {
+                        let buffered = self.nodes[server].count(&format!("SELECT count(*) FROM __corro_buffered_changes WHERE site_id = X'{}' AND db_version = {v}", actor.to_bytes().iter().map(|b| format!("{b:02X}")).collect::<String>())).await.unwrap_or(-1);
+                        let seqrows = self.nodes[server].count(&format!("SELECT count(*) FROM __corro_seq_bookkeeping WHERE site_id = X'{}' AND db_version = {v}", actor.to_bytes().iter().map(|b| format!("{b:02X}")).collect::<String>())).await.unwrap_or(-1);
+                        return Err(Fail::new("cleared-version-sends-no-changes", format!("v{v} has no live change on the server but it sent {got:?} (server still has {buffered} buffered rows and {seqrows} seq bookkeeping rows of it; model: held explicitly {}, partial {:?})", model.held.contains(&v), model.partial.get(&v))));
+                    }
                     ensure!(declared_empty, "cleared-version-declared-empty", "v{v} is held without live changes but was not declared empty (answers: {:?})", answers.iter().map(sim::cs_brief).collect::<Vec<_>>());
                 } else {
                     classes.insert("held-with-live-changes");
